@@ -14,7 +14,7 @@ TRUSTED = ["translator tools/py2jit.py (fail-closed, Python ast -> coq/Gen/Kerne
            "numba's compilation of the kernel text is covered only by the compiled = bounds-checked compiled = .py_func = Jit.Interp correspondence"]
 ASSUMPTIONS = ["the public-call preconditions Pre_<kernel> are read off the wrappers by hand (lengths of paired arrays equal; counts produced by jitrestrict_with_count, whose contract is proved); "
                "they are exercised by the bounds-checked public degenerate calls",
-               "_overlap_split's output-buffer bound N is proved on exact rationals; float64 rounding of N is not covered (the kernel's own N + 1 slack absorbs it); trailing data axes of "
+               "_overlap_split's writes are guarded by the kernel's own test n <= N since d86eb2b (safety no longer depends on the value of N nor on float progress); trailing data axes of "
                "_jitperievent_trigger_average are collapsed in the model"]
 
 PROVED = {"jitrestrict": "k_jitrestrict_safe", "jitrestrict_with_count": "k_jitrestrict_with_count_safe", "jitin_interval": "k_jitin_interval_safe", "jitunion_isets": "k_jitunion_isets_safe",
